@@ -1,0 +1,15 @@
+//go:build verif
+
+package statsdaemon
+
+// VerifSetPacketSizeC17 overrides the datagram size limit (a constant of the transport in
+// production: 1472 for UDP) so that the packet-filling logic of processMetrics can be exercised
+// with small maps.
+func (client *Client) VerifSetPacketSizeC17(n int) {
+	client.packetSize = n
+}
+
+// VerifPacketSizeC17 returns the datagram size limit in use.
+func (client *Client) VerifPacketSizeC17() int {
+	return client.packetSize
+}
